@@ -10,14 +10,19 @@ From Nitro Require Import Base.ListX Vec.FixedVecModel Vec.VecBase Vec.BoundedLi
 Import ListNotations.
 Local Open Scope list_scope.
 
-(* one operation of the model = the same operation on bounded lists, same outcome kind *)
-Theorem C07_every_operation_refines_the_bounded_list : forall o P P' r, PAll Inv P -> pstep None o P = (P', r) ->
+(* one operation of the model = the same operation on bounded lists, same outcome kind.
+   `benign o` is True for every operation except insert(pos, begin()+a, begin()+b) with a range of the SAME vector,
+   where it demands that pos does not lie strictly inside the range (see C07_self_range_overlap_refuted).
+   The operations with aliasing arguments (emplace(pos, v[k]), emplace_back(v[k]), insert(v[k]), push_back(v[k]),
+   range insert / push_back from the vector itself, v = v, v = std::move(v)) are part of `op`; in `sstep` their
+   argument is nth k of the sequence BEFORE the operation *)
+Theorem C07_every_operation_refines_the_bounded_list : forall o P P' r, PAll Inv P -> benign o -> pstep None o P = (P', r) ->
   PAll Inv P' /\ sstep o (absP P) = (absP P', r).
 Proof. exact step_refines. Qed.
 Print Assumptions C07_every_operation_refines_the_bounded_list.
 
 (* every finite history from nothing: same outcomes, same final sequences and capacities *)
-Theorem C07_every_history_refines_the_bounded_list : forall n ops,
+Theorem C07_every_history_refines_the_bounded_list : forall n ops, Forall benign ops ->
   srun ops (repeat None n) = (absP (fst (prun (plain ops) (empty_pool n))), snd (prun (plain ops) (empty_pool n))).
 Proof. exact history_refines. Qed.
 Print Assumptions C07_every_history_refines_the_bounded_list.
@@ -77,6 +82,48 @@ Theorem C07_range_insert_overwrites : forall key xs st st' o, Inv st -> insert_r
   end.
 Proof. exact range_insert_overwrites. Qed.
 Print Assumptions C07_range_insert_overwrites.
+
+(* arguments that alias the container itself: the element named by the caller has the value it had when the call
+   started, and the operation then behaves as with any other value *)
+Theorem C07_aliasing_arguments : forall st k s, Inv st -> live_elem st k = Some s ->
+  nth_error (abs st) k = Some s /\
+  (forall key st' o, emplace None key s st = (st', o) ->
+     match bl_emplace (cap st) (abs st) key s with
+     | Some l => o = Done /\ abs st' = l /\ cap st' = cap st
+     | None => o = Raised /\ st' = st
+     end) /\
+  (forall st' o, append None s st = (st', o) ->
+     match bl_append (cap st) (abs st) s with
+     | Some l => o = Done /\ abs st' = l /\ cap st' = cap st
+     | None => o = Raised /\ st' = st
+     end).
+Proof. exact aliasing_arguments. Qed.
+Print Assumptions C07_aliasing_arguments.
+
+(* insert(begin()+key, begin()+a, begin()+b) of the same vector: the range is read as it was at the start provided
+   the position is not strictly inside it; push_back(begin()+a, begin()+b) always *)
+Theorem C07_self_range_insert_partial : forall key a b st st' o, Inv st -> self_range_valid st a b = true -> key <= a \/ b <= key ->
+  insert_self_range None key a b st = (st', o) ->
+  match bl_overwrite (cap st) (abs st) key (firstn (b - a) (skipn a (abs st))) with
+  | Some (l, fits) => o = (if fits then Done else Raised) /\ abs st' = l /\ cap st' = cap st
+  | None => o = Raised /\ st' = st
+  end.
+Proof. exact self_range_insert. Qed.
+Print Assumptions C07_self_range_insert_partial.
+
+Theorem C07_self_range_push_back : forall a b st st' o, Inv st -> self_range_valid st a b = true ->
+  push_back_self_range None a b st = (st', o) ->
+  let r := bl_append_range (cap st) (abs st) (firstn (b - a) (skipn a (abs st))) in
+  o = (if snd r then Done else Raised) /\ abs st' = fst r /\ cap st' = cap st.
+Proof. exact self_range_push_back. Qed.
+Print Assumptions C07_self_range_push_back.
+
+(* full statement (no side condition on the position) is false of the faithful model: the element-by-element copy
+   re-reads slots it has already overwritten *)
+Theorem C07_self_range_overlap_refuted : exists o P, PAll Inv P /\ ~ benign o /\
+  sstep o (absP P) <> (absP (fst (pstep None o P)), snd (pstep None o P)).
+Proof. exact self_range_overlap_refuted. Qed.
+Print Assumptions C07_self_range_overlap_refuted.
 
 Theorem C07_construct_from_range : forall c xs st' o, make_from None c xs = (st', o) ->
   if length xs <=? c then o = Done /\ abs st' = xs /\ cap st' = c else o = Raised.
@@ -145,5 +192,14 @@ Example C07_ex_history :
        (repeat None 3) =
   ([Some (1, [Filled 7]); Some (3, [Filled 1; Filled 3]); Some (3, [Filled 1; Filled 8; Filled 3])],
    [Done; Done; Done; Done; Done; Done]).
+Proof. reflexivity. Qed.
+Example C07_ex_alias_history :
+  srun [ONewFrom 0 5 [1; 2; 3]; OEmplaceAt 0 0 2; OEmplaceAt 0 1 1; OMoveAssign 0 0; OPushBackSelfRange 0 0 1]
+       (repeat None 1) =
+  ([Some (5, [Filled 3; Filled 1; Filled 1; Filled 2; Filled 3])], [Done; Done; Done; Done; Raised]).
+Proof. reflexivity. Qed.
+Example C07_ex_alias_model :
+  prun (plain [ONewFrom 0 5 [1; 2; 3]; OEmplaceAt 0 0 2; OEmplaceAt 0 1 1]) (empty_pool 1) =
+  ([Some (mkfv 5 5 [Filled 3; Filled 1; Filled 1; Filled 2; Filled 3])], [Done; Done; Done]).
 Proof. reflexivity. Qed.
 End Examples.
